@@ -41,12 +41,20 @@ def resolved(e, defs, keep=()):
 def path_defs(p, before=None):
     """name -> defining expression for the plain `name = expr` assignments of path `p` (the last one before event `before`)"""
     defs = {}
+
+    def put(name, value):
+        # x = f(x): the new definition is read with the previous one substituted (the path is a straight line)
+        if name in defs and any(isinstance(n, ast.Name) and n.id == name and isinstance(n.ctx, ast.Load) for n in ast.walk(value)):
+            value = _R({name: defs[name]}, set()).visit(clone_expr(value))
+        # a definition that mentions another local whose definition changes later must be frozen now
+        defs[name] = value
+
     for e in p.events:
         if before is not None and e is before:
             break
         if e.kind == 'assign' and isinstance(e.stmt, ast.Assign) and len(e.stmt.targets) == 1 \
                 and isinstance(e.stmt.targets[0], ast.Name):
-            defs[e.target] = e.stmt.value
+            put(e.target, e.stmt.value)
         elif e.kind == 'assign' and isinstance(e.stmt, ast.Assign) and all(isinstance(t, ast.Name) for t in e.stmt.targets):
             defs[e.target] = e.stmt.value
         elif e.kind == 'assign' and isinstance(e.stmt, ast.Assign) and len(e.stmt.targets) == 1 and isinstance(e.stmt.targets[0], (ast.Tuple, ast.List)) \
